@@ -69,7 +69,12 @@ def check(run):
     run.build()
     # all interleavings of the scaled-down protocol model: the success invariants hold under every schedule
     run.tlc_mc("Protocol", "Protocol.cfg" if run.thorough else "Protocol_quick.cfg", timeout=1500, xmx="12g",
-               label="alg/Protocol: every interleaving of walk, workers, request loop, receive loop, diff, writers; recv ok => every needed file complete")
+               label="alg/Protocol: every interleaving of walk, workers, request loop, receive loop, diff, writers; recv ok => every needed file complete; two conforming peers never need the environment's teardown (ProgressWithoutEnvironment)")
+    from vlib import Inconclusive
+    r = run.tlc_mc("Protocol", "Protocol_writerlimit.cfg", expect_error=True,
+                   label="sanity: a bound on the async writers (seeded variant) must get two conforming peers stuck under some schedule")
+    if "Invariant ProgressWithoutEnvironment is violated" not in r["out"]:
+        raise Inconclusive("Protocol_writerlimit.cfg was not rejected: the progress invariant is vacuous")
     race = run.build(race=True)
     trace, st = run.drive("sync", name="sync-sched", extra=["-what", "sched"])
     racelog = os.path.join(run.work, "racelog")
